@@ -15,4 +15,9 @@ NamesRx == {"a", "ab"}
 LvRx == {"ab", "r:a|ab", "r:a.*?", "r:a", "r:.*"}
 PatsRx == Pats(LvRx, 2) \cup {<<>>}
 ShrinkRx == Pats({"r:.*", "r:a"}, 2)
+\* a level may be the empty string (the root node is nameless too, but it is not a level)
+NamesE == {"", "a"}
+LvE == {"", "a", "r:.*", "r:.+"}
+PatsE == Pats(LvE, 2) \cup {<<>>}
+ShrinkE == Pats({"", "r:.*", "r:.+"}, 2)
 ====
